@@ -2,13 +2,14 @@
 (* Bounded design model of Upsert: one state per input (and one per table).                       *)
 (*                                                                                                *)
 (*   Inputs == Tables \X Requests \X Options                                                      *)
-(*   Tables    every table of <= MaxRows rows (ids 1..n) whose key cells are k1 \in {1, 2},       *)
-(*             k2 \in {"a", "1"}; v = 0                                                           *)
+(*   Tables    every table of <= MaxRows rows (ids 1..n) whose key cells (k1, k2) are in KeyRows  *)
+(*             (k1 \in {1, 2}, k2 \in {"a", "1"}); v = 0                                          *)
 (*   Requests  BulkAddOrUpdateRecord with <= MaxLen input rows: every `require` over the column   *)
-(*             sets {}, {k1}, {k2}, {k1, k2} with values from RK1 / RK2 (these include "1" for    *)
-(*             the Int column and 1 for the Text column), col_values {} or {v}; `require` over    *)
-(*             at most one column with col_values that overwrite a key column ({k1} or {k2, v});  *)
-(*             value lists of different lengths; AddOrUpdateRecord for every one-row request      *)
+(*             sets {}, {k1}, {k2}, {k1, k2} with values from RK1 (RK1T when both columns are     *)
+(*             given) / RK2 - these include "1" for the Int column and 1 for the Text column -,   *)
+(*             col_values {} or {v}; `require` over at most one column with col_values that       *)
+(*             overwrite a key column ({k1} from CK1 or {k2, v} from CK2); value lists of         *)
+(*             different lengths; AddOrUpdateRecord for every one-row request                     *)
 (*   Options   on_many \in {first, all, none, other} x update x add x allow_empty_require given   *)
 (*             explicitly, and the combinations of "not given" with a non-default value           *)
 (*             (on_many \in DefOnMany)                                                            *)
@@ -19,7 +20,7 @@
 (* harness forms their product (and checks its size against the number of states TLC found) and   *)
 (* runs the real engine on every element.                                                         *)
 EXTENDS Upsert, TLC, Json, IOUtils, SequencesExt, FiniteSetsExt
-CONSTANTS MaxRows, MaxLen, RK1, RK2, CK1, CK2, DefOnMany
+CONSTANTS MaxRows, MaxLen, KeyRows, RK1, RK1T, RK2, CK1, CK2, DefOnMany
 
 RK1Std  == {I(1), I(2), NS(1)}
 RK1Min  == {I(1), NS(1)}
@@ -30,14 +31,15 @@ CK1Min  == {NS(1)}
 CK2Std  == {S("a"), I(1)}
 CK2Min  == {I(1)}
 
-KeyRows == {I(1), I(2)} \X {S("a"), NS(1)}
+KeyRows4 == {I(1), I(2)} \X {S("a"), NS(1)}
+KeyRows3 == KeyRows4 \ {<<I(2), NS(1)>>}
 Tables == UNION {{[k \in 1..n |-> [id |-> k, k1 |-> f[k][1], k2 |-> f[k][2], v |-> I(0)]] :
                     f \in [1..n -> KeyRows]} : n \in 0..MaxRows}
 
 Col(c, vals) == [col |-> c, vals |-> vals]
-OneCol(n) == {<<Col("k1", a)>> : a \in [1..n -> RK1]} \cup {<<Col("k2", b)>> : b \in [1..n -> RK2]}
-Requires(n) == {<<>>} \cup OneCol(n) \cup
-               {<<Col("k1", a), Col("k2", b)>> : a \in [1..n -> RK1], b \in [1..n -> RK2]}
+OneCol(n, K1) == {<<Col("k1", a)>> : a \in [1..n -> K1]} \cup {<<Col("k2", b)>> : b \in [1..n -> RK2]}
+Requires(n) == {<<>>} \cup OneCol(n, RK1) \cup
+               {<<Col("k1", a), Col("k2", b)>> : a \in [1..n -> RK1T], b \in [1..n -> RK2]}
 VList(n) == [i \in 1..n |-> I(6 + i)]
 PlainVals(n) == {<<>>, <<Col("v", VList(n))>>}
 KeyVals(n) == {<<Col("k1", a)>> : a \in [1..n -> CK1]} \cup
@@ -45,7 +47,8 @@ KeyVals(n) == {<<Col("k1", a)>> : a \in [1..n -> CK1]} \cup
 
 Req(kind, r, c) == [kind |-> kind, require |-> r, colvals |-> c]
 Shapes(kind, n) == {Req(kind, r, c) : r \in Requires(n), c \in PlainVals(n)} \cup
-                   {Req(kind, r, c) : r \in {<<>>} \cup OneCol(n), c \in KeyVals(n)}
+                   (IF n = 0 THEN {}
+                    ELSE {Req(kind, r, c) : r \in {<<>>} \cup OneCol(n, RK1T), c \in KeyVals(n)})
 
 Mismatched ==
   {Req("bulk", <<Col("k1", a)>>, <<Col("v", VList(m))>>) :
@@ -60,7 +63,8 @@ Requests == UNION {Shapes("bulk", n) : n \in 0..MaxLen} \cup Shapes("single", 1)
 Opts(om, u, a, e) == [on_many |-> om, update |-> u, add |-> a, allow |-> e]
 Options == {Opts(om, u, a, e) : om \in {"first", "all", "none", "other"}, u \in {"T", "F"},
                                 a \in {"T", "F"}, e \in {"T", "F"}} \cup
-           {Opts(om, u, a, e) : om \in DefOnMany, u \in {"-", "F"}, a \in {"-", "F"}, e \in {"-", "T"}}
+           {Opts(om, u, a, e) : om \in DefOnMany, u \in {"-", "F"}, a \in {"-", "F"}, e \in {"-", "T"}} \cup
+           {Opts("-", "-", "-", "-")}
 
 Input(t, q, o) == [kind |-> q.kind, rows |-> t, require |-> q.require, colvals |-> q.colvals, opts |-> o]
 
